@@ -38,8 +38,27 @@ IFACES = [
                               {"typ": "Union_str_Bytes", "def": "absent", "doc": "plain"}],
      "ret": {"typ": "none", "def": "absent", "doc": "absent"}},
 ]
-EMIT = ["class", "pydantic", "function", "argparse", "json_schema", "sqlalchemy", "sqlalchemy_table", "sqlalchemy_hybrid",
+EMIT = ["class", "pydantic", "function", "function_edd", "argparse", "json_schema", "sqlalchemy", "sqlalchemy_table", "sqlalchemy_hybrid",
         "docstring:rest", "docstring:google", "docstring:numpydoc"]
+
+
+POP_DEFS = {"int": ["absent", "int_pos", "int_zero", "int_neg"], "float": ["absent", "float_pos", "zero_float", "float_neg"],
+            "bool": ["absent", "bool_T", "bool_F"], "str": ["absent", "str", "str_empty", "str_odd"],
+            "Opt_int": ["None", "int_pos", "int_zero"], "Opt_float": ["None", "float_pos", "zero_float"], "Opt_bool": ["None", "bool_T", "bool_F"],
+            "Opt_str": ["None", "str"], "Lit": ["absent", "str"], "List_str": ["absent"], "Union_int_str": ["absent", "int_pos"], "Dotted": ["absent"]}
+
+
+def _population(seed, n):
+    rnd = random.Random(seed * 7919 + 11)
+    out = []
+    for _ in range(n):
+        params = []
+        for _k in range(rnd.randint(1, 3)):
+            t = rnd.choice(sorted(POP_DEFS))
+            params.append({"typ": t, "def": rnd.choice(POP_DEFS[t]), "doc": rnd.choice(["plain", "dot"])})
+        out.append({"doc": "one", "params": params,
+                    "ret": rnd.choice([{"typ": "none", "def": "absent", "doc": "absent"}, {"typ": "int", "def": "absent", "doc": "plain"}])})
+    return out
 
 
 def run_worker(args):
@@ -68,8 +87,8 @@ def check(run, replay=None):
 def _check(run, replay, work):
     quick = run.tier == "quick"
     run.rule = ("observation = (api, input) executed in a fresh interpreter with a given PYTHONHASHSEED and call order; inputs: "
-                "TLC-enumerated partially documented functions/classes, emitters+inferred imports on 6 interfaces x 11 formats (two of them with type names that the emitters' lookup tables do not hold, plain and inside Union / List / Optional), "
-                "mock docstrings, 4 source objects x 8 targets converted from one object kept for the life of the process and from fresh copies; distinct = distinct (api, input); all observations of one (api, input) must hash equal")
+                "TLC-enumerated partially documented functions/classes, emitters+inferred imports on 6 interfaces x 12 formats (two of them with type names that the emitters' lookup tables do not hold, plain and inside Union / List / Optional), "
+                "mock docstrings, a seeded population of 24 (quick) / 120 (thorough) interfaces x 12 formats with equal-valued defaults of different types, 4 source objects x 8 targets converted from one object kept for the life of the process and from fresh copies; distinct = distinct (api, input); all observations of one (api, input) must hash equal")
     # ---------------- TLC ----------------
     n = 3 if quick else 4
     r = run.tlc("Determinism", "MC_Determinism.cfg", constants={"MaxSig": 3, "MaxCalls": 2}, timeout=3000)
@@ -108,6 +127,12 @@ def _check(run, replay, work):
     for k, i in enumerate(IFACES):
         for fmt in EMIT:
             jobs.append({"api": "emit." + fmt, "id": "i{}".format(k), "input": {"i": i, "salt": k}})
+    # a seeded population of interfaces from the shared abstract domain, among them defaults of DIFFERENT types that compare EQUAL
+    # (True / 1 / 1.0, False / 0 / 0.0): whatever a process remembers between calls -- a cache keyed by equality, a table that grows --
+    # shows as soon as two orders of the same calls are compared
+    for k, i in enumerate(_population(run.seed, 24 if quick else 120)):
+        for fmt in EMIT:
+            jobs.append({"api": "emit." + fmt, "id": "r{}".format(k), "input": {"i": i, "salt": k}})
     # conversions of ONE parsed object the caller keeps for the life of the process (Determinism!CallShared), next to conversions of a
     # freshly parsed copy of the same text: all are observations of the same (api, input)
     from harness import det_worker
